@@ -430,14 +430,33 @@ func c09Introspection(r *verdict.Run, runs int) {
 				cn.Do("SELECT", strconv.Itoa(id%4))
 			}
 			rng := shardRng(r, 7000+run*100+id)
+			own, _ := cn.ClientID()
+			// forms that name clients that exist (the own id and its neighbours), by id and by other filters
+			byID := func() []string {
+				switch rng.Intn(4) {
+				case 0:
+					return []string{"CLIENT", "LIST", "ID", strconv.FormatInt(own, 10)}
+				case 1:
+					return []string{"CLIENT", "LIST", "ID", strconv.FormatInt(own-1, 10), strconv.FormatInt(own, 10), strconv.FormatInt(own+1, 10)}
+				case 2:
+					return []string{"CLIENT", "LIST", "TYPE", "normal"}
+				}
+				return []string{"CLIENT", "KILL", "ID", strconv.FormatInt(own+100000, 10)}
+			}
 			for i := 0; i < 120 && stuck.Load() == 0; i++ {
 				var cmds [][]string
 				if txn {
 					cmds = [][]string{{"MULTI"}}
 					for k := 0; k < 1+rng.Intn(3); k++ {
-						cmds = append(cmds, inside[rng.Intn(len(inside))])
+						if rng.Intn(5) == 0 {
+							cmds = append(cmds, byID())
+						} else {
+							cmds = append(cmds, inside[rng.Intn(len(inside))])
+						}
 					}
 					cmds = append(cmds, []string{"EXEC"})
+				} else if rng.Intn(5) == 0 {
+					cmds = [][]string{byID()}
 				} else {
 					cmds = [][]string{outside[rng.Intn(len(outside))]}
 				}
